@@ -16,6 +16,7 @@ import (
 	"testing"
 
 	"pgregory.net/rapid"
+	"verif/harness/sched"
 )
 
 // Violation is one oracle failure.
@@ -184,6 +185,7 @@ func Drive[C any](t *testing.T, r Runner[C]) {
 	}
 	kn := known()
 	curProp, curCheck = r.Prop, t.Name()
+	sched.SetOnHang(SaveHang)
 	st := &Stats{Property: r.Prop, Check: t.Name(), Classes: map[string]int{}, KnownHits: map[string]int{}, Rule: r.Rule, hashes: map[uint64]struct{}{}}
 	defer st.flush(filepath.Join(out, "stats.json"), filepath.Join(out, "hashes.bin"))
 
